@@ -6,7 +6,7 @@ import ast
 
 from ..model import func_nodes, norm, AnalysisError
 from ..cfg import calls_in, _walk_noscope
-from .util import (none_test, node_has_effect, effect_nodes, calls_method_of, recv_call, stmt_of, parent, cfg_nodes)
+from .util import (inline_locals, none_test, node_has_effect, effect_nodes, calls_method_of, recv_call, stmt_of, parent, cfg_nodes)
 from .liveness import broken_pred, resolve_pred, wake_pred
 from .broken import kill_pred
 from .timeouts import _item_name, _is_call_of_item, _sends_result
@@ -428,4 +428,38 @@ def r_cause(e, R):
             okn = bool(st_exc)
         R.check(okn, "R-CAUSE", f"{red.short}: first shipped field is the exception passed to the wrapper", red.short, "self.exc",
                 "the wrapper does not ship the original exception object first", e.loc(red, red.node))
-    R.floor("R-CAUSE", 4)
+    # the manager's own diagnoses: where it holds the worker's traceback / the unpickling error, the broken-pool exception it
+    # builds carries it as __cause__ (that is the only place the user can learn *why* the pool broke)
+    wf = e.prog.funcs[next(iter({f.qualname for f, _ in a.wait_calls}))]
+    wg = e.cfg(wf)
+    bpp = f"{PE}:BrokenProcessPool"
+    for n in wg.nodes:
+        if not (n.kind == "stmt" and isinstance(n.ast, ast.Assign) and isinstance(n.ast.targets[0], ast.Name) and isinstance(n.ast.value, ast.Call)):
+            continue
+        cl = {v[1] for v in e.pt.ev(wf, n.ast.value.func) if v[0] == "class"}
+        if not any(c == bpp or e.pt.is_subclass(c, bpp) for c in cl):
+            continue
+        var = n.ast.targets[0].id
+        # what evidence is in scope?  an enclosing `except ... as e`, or an enclosing isinstance(x, <traceback class>) branch
+        srcs = set()
+        p_ = e.prog.parent.get(id(n.ast))
+        ch = n.ast
+        while p_ is not None and p_ is not wf.node:
+            if isinstance(p_, ast.ExceptHandler) and p_.name:
+                srcs.add(p_.name)
+            if isinstance(p_, ast.If) and any(ch is b for b in p_.body) and isinstance(p_.test, ast.Call) and isinstance(p_.test.func, ast.Name) \
+                    and p_.test.func.id == "isinstance" and isinstance(p_.test.args[0], ast.Name):
+                srcs.add(p_.test.args[0].id)
+            ch = p_
+            p_ = e.prog.parent.get(id(p_))
+        if not srcs:
+            continue
+        sets = [m for m in wg.nodes if m.kind == "stmt" and isinstance(m.ast, ast.Assign) and isinstance(m.ast.targets[0], ast.Attribute)
+                and m.ast.targets[0].attr == "__cause__" and isinstance(m.ast.targets[0].value, ast.Name) and m.ast.targets[0].value.id == var
+                and (({x.id for x in ast.walk(m.ast.value) if isinstance(x, ast.Name)} |
+                      {x.id for x in ast.walk(inline_locals(e, wf, m.ast.value)) if isinstance(x, ast.Name)}) & srcs)]
+        esc = wg.escape_path(n, lambda m: m in sets, use_exc=False)
+        R.check(bool(sets) and esc is None, "R-CAUSE", f"{wf.short}: the diagnosis built from `{'/'.join(sorted(srcs))}` carries it as __cause__", wf.short,
+                f"{var}.__cause__ = ... {sorted(srcs)}", "the broken-pool exception is raised without the worker's traceback / the un-pickling error that "
+                "explains it", e.loc(wf, n.ast))
+    R.floor("R-CAUSE", 6)
